@@ -50,12 +50,20 @@ BzrDirFormat.initialize) and for a sample through a real socket medium pair:
 Findings on the unchanged tree are reported with families computed from the
 failing input (see `_family`).
 
-Mutants this was built against (scratch worktrees, see the report): dropping
-the joinpath call in translate_client_path; `startswith(root)` → no root
-check; escape dropped in translate_client_path; vfs unescape applied twice;
-`_expand_userdirs` ignoring the base-path test; `_pre_open_hook` comparing
-with `startswith(base[:-1])`; teardown instead of setup of the jail; harmless:
-rewriting the startswith/len slicing with removeprefix.
+Mutants this was built against (scratch worktrees; all semantic ones caught):
+  M1 translate_client_path without the joinpath normalisation      -> T2 (10140 mismatches; the chroot
+     clamps the '..', so containment itself still holds: tie verdict)
+  M2 root-client-path prefix test replaced by True                 -> T2 (E:NotChild expected)
+  M3 escape dropped from translate_client_path                     -> oracle: non-VFS verbs reach outside
+     content for '..%2F...' paths (violations without a known family) + T2
+  M4 VfsRequest unescapes twice                                    -> oracle ('..%252Fcanary' read) + T2
+  M5 _expand_userdirs ignores the base-path test                   -> oracle (4352 results that are neither
+     the path nor the remainder below the base path) + T2
+  M6 _pre_open_hook accepts on PathNotChild (swapped branches)     -> oracle: file:// URL outside the jail
+     opened during a request + T2
+  M7 setup_jail installs no jail                                   -> oracle: outside control directory opened
+  H1 slicing rewritten with str.removeprefix (harmless)            -> clean (same result as the unchanged tree)
+  with the proposed fix applied (unescape first) the vfs-* families disappear and T2 selects model variant fx.
 """
 import contextlib
 import errno
@@ -80,7 +88,7 @@ THEOREMS = [
 ]
 RULE = ("case = (root client path, client path bytes); client paths are all strings of <= N tokens over the "
         "11-token alphabet of the property (enumerated completely, deduplicated as byte strings), plus random "
-        "longer strings over a 27-token alphabet and ~10% non-UTF-8 strings; each case is run through the "
+        "longer strings over a 33-token alphabet and ~10% non-UTF-8 strings; each case is run through the "
         "translate functions, the clone, a traced read through the real chroot/userdir stack and (for the verb "
         "subset) every verb class in two worlds; non-trivial = the path contains '..', '%', '~', a NUL, a "
         "non-ASCII byte or a doubled/leading '/'")
@@ -845,8 +853,8 @@ def run(ctx, n_exh=None, n_deep=None, n_verbs=None):
     shallow = gen_exhaustive(n_exh)
     deep_set = set(gen_exhaustive(n_deep))
     verbs_set = gen_exhaustive(n_verbs)
-    rnd = gen_random(rng, ctx.pick(600, 12000), 3, 8)
-    rnd_verbs = rnd[: ctx.pick(12, 200)]
+    rnd = gen_random(rng, ctx.pick(1000, 12000), 3, 8)
+    rnd_verbs = rnd[: ctx.pick(20, 200)]
     bad = gen_malformed(rng, ctx.pick(150, 1000))
     ctx.extra["domain"] = dict(tokens=TOKENS, exhaustive_translate=n_exh, exhaustive_stack=n_deep,
                                exhaustive_verbs=n_verbs, random=len(rnd), malformed=len(bad), configs=CONFIGS)
@@ -884,7 +892,7 @@ def run(ctx, n_exh=None, n_deep=None, n_verbs=None):
     t0 = time.time()
     for i, k in enumerate(CONFIGS):
         # every verb class: the whole <= n_verbs-token set on the first configuration, a sample on the others
-        vs = verbs_set if (i == 0 or ctx.thorough()) else rng.sample(verbs_set, min(len(verbs_set), 12))
+        vs = verbs_set if (i == 0 or ctx.thorough()) else rng.sample(verbs_set, min(len(verbs_set), 20))
         for cp in prefixed(k[0], SEEDS + vs + rnd_verbs):
             verbs_case(ctx, sa[k], sb[k], cp)
     tm["verbs"] = round(time.time() - t0, 1)
